@@ -95,3 +95,35 @@ PROPS["C02"] = dict(
                  "asynchronous KeyboardInterrupt raised inside _tell_with_warning",
                  "Study.ask failing inside sampler.before_trial after the trial was created"],
 )
+
+_NUM_ASSUME = LIB_ASSUMPTIONS + [
+    "machine arithmetic treated as mathematical: finite float arithmetic is exact real arithmetic, float(int) exact "
+    "(|int| < 2**53), so no claim about ulps or rounding is proved; order-only facts (clip/min/max) also hold for doubles",
+    "float granularity assumption: for doubles low < high, nextafter(high, -inf) >= low",
+    "math.exp / math.log uninterpreted (exp > 0); np.round is round-half-even; np.clip propagates NaN",
+]
+PROPS["C11"] = dict(
+    modules=["contracts.transform"], bounded=["bounded.float_lattice"],
+    claim="IntDistribution: high adjustment is on the grid, within (high-step, high], >= low and idempotent; "
+          "to_external_repr(to_internal_repr(v)) == v and containment is preserved for every contained int (lemma over "
+          "the two contracts); scalar transform/untransform are inverse on contained ints and on step-less linear floats "
+          "below high (lemma). All obligations discharged by z3 for all inputs (exact-real float model). Decimal/stepped-"
+          "float/JSON/categorical/one-hot paths: BOUNDED stand-in only (lattice, labelled bounded, not counted as proved).",
+    note="exact-real float model (no ulp claims); JSON (json.dumps/loads, cls(**attrs)) and Decimal paths only bounded; "
+         "ints beyond 2**53 are known finding F9",
+    assumptions=_NUM_ASSUME,
+    not_covered=["'within a few ulps' for log-scaled floats (bounded check with tolerance 4+2|ln x| ulps only)",
+                 "json_to_distribution/distribution_to_json deductively (**kwargs construction, json module)"],
+)
+PROPS["C10"] = dict(
+    modules=["contracts.transform"], bounded=["bounded.float_lattice"],
+    claim="_untransform_numerical_param maps every point of the transformed box into [low, high] for Int (result an int; "
+          "on the step grid proved for step 1) and Float distributions (upper bound in every branch, lower bound except "
+          "exp(log(.)) of log floats); IntDistribution/FloatDistribution containment and value conversions meet their "
+          "contracts. Discharged by z3 for all inputs under the exact-real float model; stepped floats, general int "
+          "steps, log floats and huge ints: BOUNDED lattice stand-in.",
+    note="Trial._suggest and the samplers' own sampling code are not yet under contract; exact-real float model",
+    assumptions=_NUM_ASSUME,
+    not_covered=["TPE/GP/NSGA/QMC samplers' sampling code (numpy)", "Trial._suggest glue (pending)",
+                 "log-float lower bound (exp(log(low)) may undershoot by a few ulps: allowed by the statement)"],
+)
